@@ -600,15 +600,32 @@ def discovery_case(res, spec, idx, tier):
         missing = (kind, cfg_names[kind][j])
         impl_names[kind][j] = None
     # config: every action in entry/transition actions; guards partly inside composites
-    states = {"a": {"on": {}, "entry": [], "exit": []}, "b": {"on": {}}}
+    # (names are referenced from every kind of place a config can name them: entry/exit, transitions
+    #  of ordinary, FINAL and compound states, delayed and eventless transitions, onDone, the root)
+    states = {"a": {"on": {}, "entry": [], "exit": []}, "b": {"on": {}},
+              "z": {"type": "final", "on": {}},
+              "c": {"initial": "c1", "states": {"c1": {}, "cf": {"type": "final", "on": {}}}}}
+    root_on = {}
+    off = rng.randrange(8)
     for i, n in enumerate(cfg_names["a"]):
-        where = i % 3
+        where = (i + off) % 8
+        res.count("discovery.action-site.%d" % where)
         if where == 0:
             states["a"]["entry"].append(n)
         elif where == 1:
             states["a"]["on"].setdefault("E%d" % i, []).append({"target": "b", "actions": [{"type": n}]})
-        else:
+        elif where == 2:
             states["a"]["exit"].append(n)
+        elif where == 3:
+            states["z"]["on"]["UNDO%d" % i] = {"target": "a", "actions": [n]}
+        elif where == 4:
+            states["b"].setdefault("after", {})["100000"] = {"target": "a", "actions": [n]}
+        elif where == 5:
+            states["c"]["onDone"] = {"target": "a", "actions": [n]}
+        elif where == 6:
+            states["c"]["states"]["cf"]["on"]["REOPEN%d" % i] = {"target": "c1", "actions": [{"type": n}]}
+        else:
+            root_on["R%d" % i] = {"actions": [n]}
     composite = False
     for i, n in enumerate(cfg_names["g"]):
         if rng.random() < 0.5 and len(cfg_names["g"]) > 1:
@@ -626,7 +643,11 @@ def discovery_case(res, spec, idx, tier):
                     other, {"type": "stateIn", "params": {"stateId": "#m.a"}}]}]}
         else:
             g = n
-        states["a"]["on"].setdefault("G%d" % i, []).append({"target": "b", "guard": g})
+        if (i + off) % 3 == 2:
+            res.count("discovery.guard-on-a-final-state-transition")
+            states["z"]["on"].setdefault("GZ%d" % i, []).append({"target": "a", "guard": g})
+        else:
+            states["a"]["on"].setdefault("G%d" % i, []).append({"target": "b", "guard": g})
     for i, n in enumerate(cfg_names["s"]):
         if i == 0:
             states["b"]["invoke"] = {"src": n, "onDone": "a"}
@@ -637,6 +658,8 @@ def discovery_case(res, spec, idx, tier):
         states["a"]["entry"].append({"type": "xstate.assign", "params": {"k": 1}})
         states["a"]["entry"].append({"type": "log", "params": {"message": "hi"}})
     cfg = {"id": "m", "initial": "a", "context": {}, "states": states}
+    if root_on:
+        cfg["on"] = root_on
     # implementations
     impls = {}
 
@@ -765,6 +788,96 @@ def _as_method(kind, f):
     return m
 
 
+def class_spelling_mix_case(res, spec, idx):
+    """Class-based definitions may mix the two spellings of a top-level state - a nested
+    `class name(State)` holding child States and a plain `State(...)` attribute - in any order: the
+    machine is the config with the states in DECLARATION order."""
+    rng = rng_for(spec["seed"], ID, spec["chunk"], idx, "mix")
+    n = rng.randint(2, 5)
+    parallel = rng.random() < 0.6
+    log = []
+    ns = {"machine_id": "mix", "initial_context": {"n": 0}}
+    if parallel:
+        ns["machine_root"] = State(parallel=True)
+    cfg = {"id": "mix", "context": {"n": 0}, "states": {}}
+    if parallel:
+        cfg["type"] = "parallel"
+    names, nested_flags = [], []
+    init = rng.randrange(n)
+    for i in range(n):
+        key = "r%d%s" % (i, rng.choice(["", "x", "_b"]))
+        kids = ["k%d" % j for j in range(rng.randint(1, 3))]
+        nested = rng.random() < 0.5
+        nested_flags.append(nested)
+        names.append(key)
+        sd = {"initial": kids[0], "states": {}}
+        objs = []
+        for j, k in enumerate(kids):
+            ksd = {"entry": ["enter_%s_%s" % (key, k)], "on": {"TICK": {"actions": ["tick_%s" % key]}}}
+            if j + 1 < len(kids):
+                ksd["on"]["NEXT"] = kids[j + 1]
+            sd["states"][k] = ksd
+            objs.append(State("" if nested else k, initial=(j == 0), entry=list(ksd["entry"]),
+                              on=copy.deepcopy(ksd["on"])))
+        if not parallel and i == init:
+            cfg["initial"] = key
+        cfg["states"][key] = sd
+        if nested:
+            body = {k: o for k, o in zip(kids, objs)}
+            kwds = {"initial": True} if (not parallel and i == init) else {}
+            # class <key>(State[, initial=True]):  <kid> = State(...)
+            ns[key] = types.new_class(key, (State,), kwds, lambda ns_, _b=body: ns_.update(_b))
+        else:
+            ns[key] = State(states=objs, initial=(not parallel and i == init))
+    if "initial" not in cfg and not parallel:
+        cfg["initial"] = names[0]
+    acts = sorted({a for sd in cfg["states"].values() for k in sd["states"].values()
+                   for a in k["entry"] + k["on"]["TICK"]["actions"]})
+
+    def mk(nm):
+        return lambda i_, c, e, a, _n=nm: log.append(_n)
+    k = 0
+    for a in acts:
+        k += 1
+
+        def am(self, i_, c, e, a_, _n=a):
+            log.append(_n)
+        ns["act_%d" % k] = py.action(a)(am)
+    res.evaluations += 1
+    res.count("class-mix.definitions")
+    if any(nested_flags) and not all(nested_flags):
+        res.count("class-mix.both-spellings")
+        res.hashes.add(h(["mix", names, nested_flags, parallel]))
+    witness = {"declaration_order": names, "nested_class": nested_flags, "parallel_root": parallel, "config": cfg}
+    try:
+        cls = type("Mix%d" % idx, (StateMachine,), ns)
+        m1 = cls.create_machine()
+        m0 = create_machine(copy.deepcopy(cfg), logic=MachineLogic(actions={a: mk(a) for a in acts}))
+    except LIBERR as e:
+        res.violation("C19:class-api-rejects-mixed-spellings/%s" % type(e).__name__, str(e)[:160], witness,
+                      case={"idx": idx, "mix": True})
+        return
+    d = fingerprint.diff(fingerprint.machine_fp(m0), fingerprint.machine_fp(m1))
+    if d:
+        res.violation("C19:class-api-mixed-spellings-build-a-different-machine",
+                      "nested-class and instance states declared as %s: %s" % (
+                          list(zip(names, nested_flags)), d[:3]), witness, case={"idx": idx, "mix": True})
+        return
+    traces = []
+    for m in (m0, m1):
+        del log[:]
+        it = xs.SyncInterpreter(m).start()
+        it.send("TICK")
+        it.send("NEXT")
+        it.send("TICK")
+        traces.append((list(log), sorted(it.current_state_ids)))
+        it.stop()
+    res.count("class-mix.traces-compared")
+    if traces[0] != traces[1]:
+        res.violation("C19:class-api-mixed-spellings-behave-differently",
+                      "config: %s ; class: %s" % (traces[0], traces[1]), witness, case={"idx": idx, "mix": True})
+
+
 def precedence_case(res, spec, idx):
     """a user implementation named like a built-in is the one that runs"""
     from ..observe import SyncInterpreter
@@ -837,6 +950,8 @@ def run_chunk(spec):
         discovery_case(res, spec, idx, tier)
         if idx % 3 == 0:
             precedence_case(res, spec, idx)
+        if idx % 2 == 0:
+            class_spelling_mix_case(res, spec, idx)
     wd.disarm()
     return res.to_json()
 
@@ -846,7 +961,9 @@ def quota(counters, tier):
     for k in ("api.built.functional", "api.built.builder", "api.built.class", "api.traces-compared",
               "api.rebuilds", "api.transition-objects", "api.overlapping-definitions",
               "api.cases-with-names-reused-at-different-depths", "api.unions.transition|group",
-              "api.unions.group|transition", "api.builder-context-override-builds", "api.null-handlers",
+              "api.unions.group|transition", "api.builder-context-override-builds", "api.null-handlers", "class-mix.both-spellings",
+              "class-mix.traces-compared", "discovery.action-site.3", "discovery.action-site.4", "discovery.action-site.5",
+              "discovery.action-site.6", "discovery.action-site.7", "discovery.guard-on-a-final-state-transition",
               "discovery.runs.module", "discovery.runs.provider", "discovery.runs.subclass",
               "discovery.bindings-checked", "discovery.missing-reported",
               "discovery.composite-guards-accepted", "discovery.builtins-not-required",
